@@ -207,7 +207,7 @@ def message_cases(draw):
         specs.append({"fin": 1, "op": rm.TEXT, "p": tail, "key": None})
         specs += draw(rx.message(big=False))
     return {"frames": specs, "driver": driver, "skip": skip, "mut": mut, "as_close": as_close, "text": data, "resume": resume,
-            "cf": draw(st.integers(0, 2)) == 0, "flags_as_int": draw(st.integers(0, 3)) == 0}
+            "cf": draw(st.integers(0, 2)) == 0, "flags_as_int": draw(st.integers(0, 3)) == 0, "neighbour": draw(st.integers(0, 3)) == 0}
 
 
 def run_message(case):
@@ -215,7 +215,8 @@ def run_message(case):
     specs, driver, skip = case["frames"], case["driver"], case["skip"]
     resume = bool(case.get("resume"))
     cf = bool(case.get("cf")) and driver in ("data", "data_frame")  # control frames handed to the caller: the call returns in mid-message
-    events, ws, fs, frames, ends, wire = rx.run_stream(specs, [], driver, cf, False, skip, resume=resume, flags_as_int=bool(case.get("flags_as_int")))
+    nb = rx.Neighbour() if case.get("neighbour") else None  # a second connection of the process, served between this one's frames
+    events, ws, fs, frames, ends, wire = rx.run_stream(specs, [], driver, cf, False, skip, resume=resume, flags_as_int=bool(case.get("flags_as_int")), neighbour=nb)
     want, wwr = rx.expected_events(frames, ends, len(wire), driver, cf, False, skip, resume=resume)
     valid = rm.utf8_wellformed(case["text"])
     if valid != rm.utf8_wellformed_cpython(case["text"]):
@@ -224,6 +225,8 @@ def run_message(case):
     tag = f"message|{where}|{'validation-off' if skip else ('wellformed' if valid else 'illformed:' + classify(case['text']))}{'|resume' if resume else ''}"
     if rx.compare(obs, events, want, tag):
         rx.compare_writes(obs, fs, wwr, tag)
+    if nb is not None:
+        nb.check(obs, f"message|{where}")
     split_mb = False
     if not case["as_close"]:
         # a multi-byte sequence split across two fragments?
@@ -234,7 +237,7 @@ def run_message(case):
     nt = (not valid) or split_mb or (case["mut"] != "none")
     nfr = sum(1 for s in specs if s["op"] in (rm.TEXT, rm.CONT))
     obs.cls = (f"msg:{where}", f"valid:{int(valid)}", f"mut:{case['mut']}", f"skip:{int(skip)}", driver, f"split_mb:{int(split_mb)}", f"control_frames_reported:{int(cf)}",
-               f"flags_as_int:{int(bool(case.get('flags_as_int')))}")
+               f"flags_as_int:{int(bool(case.get('flags_as_int')))}", f"neighbour:{int(nb is not None)}")
     obs.nt = (where, case["text"], skip, driver, nfr, resume, len(specs), cf, bool(case.get("flags_as_int"))) if nt else None
     return obs
 
